@@ -6,6 +6,7 @@ import (
 	"time"
 
 	"github.com/nuetzliches/hookaido/internal/queue"
+	"github.com/nuetzliches/hookaido/internal/verifhook"
 )
 
 // OpError is a transport-neutral operation error for pull worker flows.
@@ -122,6 +123,7 @@ func (s *Server) AckSingle(route string, leaseID string) *OpError {
 		}
 	}
 
+	verifhook.Point("pull.ack.before_reply")
 	s.observeAck(route, 204, leaseID, false)
 	s.rememberCompletedLease(leaseID, recentLeaseOpAck)
 	return nil
@@ -256,6 +258,7 @@ func (s *Server) NackSingle(route string, leaseID string, dead bool, reason stri
 		}
 	}
 
+	verifhook.Point("pull.nack.before_reply")
 	s.observeNack(route, 204, leaseID, false)
 	s.rememberCompletedLease(leaseID, recentLeaseOpNack)
 	return nil
